@@ -30,18 +30,29 @@ ReqsL    == {"default", "REQUIRED", "OPTIONAL", "NONE"}          \* cert_reqs
 AHL      == {"unset", "False", "match", "mismatch"}              \* assert_hostname
 FPL      == {"unset", "right", "wrong", "badlen"}                \* assert_fingerprint
 SHL      == {"unset", "match", "mismatch"}                       \* server_hostname
-CtxL     == {"none", "default_like", "nocheck", "mode_none"}     \* caller-supplied SSLContext
+CtxL     == {"none", "default_like", "nocheck", "mode_none", "urllib3_ctx"}   \* caller-supplied SSLContext
+  \* default_like = ssl.create_default_context(); nocheck = same with check_hostname off; mode_none = same
+  \* with verify_mode CERT_NONE too; urllib3_ctx = urllib3.util.ssl_.create_urllib3_context() (documented:
+  \* CERT_REQUIRED, check_hostname on, commonName fallback off)
 BackendL == {"ssl", "pyopenssl"}
-RouteL   == {"direct", "tunnel_http", "tunnel_https_good", "tunnel_https_bad"}
+RouteL   == {"direct", "tunnel_http", "tunnel_https_good", "tunnel_https_bad", "tunnel_https_pinned"}
+  \* CONNECT tunnel through an http proxy, or through an https proxy whose certificate is good (trusted,
+  \* right name), bad (untrusted issuer), or good and additionally pinned with proxy_assert_fingerprint
 IssuerL  == {"trusted", "untrusted"}
 SanL     == {"exact", "wildcard", "mismatch", "ip_match", "ip_mismatch", "cn_only"}
 HostL    == {"lower", "upper", "dot", "ipv4", "ipv6zone"}        \* spelling of the requested host
 
-HttpsProxyRoutes == {"tunnel_https_good", "tunnel_https_bad"}
+HttpsProxyRoutes == {"tunnel_https_good", "tunnel_https_bad", "tunnel_https_pinned"}
 
 CONSTANTS Routes,      \* sub-lattice explored: subset of RouteL
           Backends,    \* subset of BackendL
-          Hosts        \* subset of HostL
+          Hosts,       \* subset of HostL
+          KnownDefects \* named deviations of the real code the Model reproduces (subset of AllKnownDefects);
+                       \* {} = the design the finding asks for
+
+\* "PinnedProxySilencesWarning": _validate_conn warns only when NEITHER the origin NOR the proxy leg is
+\* verified, so a pinned (hence "verified") https proxy silences the warning for an unvalidated origin.
+AllKnownDefects == {"PinnedProxySilencesWarning"}
 
 \* TLS-in-TLS needs SSLContext.wrap_bio, which the pyOpenSSL context does not have: those points
 \* are outside the lattice (urllib3 refuses them with ProxySchemeUnsupported).
@@ -54,7 +65,7 @@ Srv == [issuer : IssuerL, san : SanL, host : Hosts]
 -----------------------------------------------------------------------------
 (* RULES, part 1: what the settings demand                                                     *)
 
-\* verify_mode of the three caller-context kinds (all built from ssl.create_default_context())
+\* verify_mode the caller-context kinds are documented to have
 CtxMode(k) == IF k = "mode_none" THEN "NONE" ELSE "REQUIRED"
 
 \* "by default chain validation ... plus a hostname match": the effective verification mode is the
@@ -76,19 +87,23 @@ Demanded(cfg) ==
     \cup (IF EffMode(cfg) = "REQUIRED" THEN {"chain"} ELSE {})
     \cup (IF EffMode(cfg) # "NONE" /\ cfg.ah # "False" /\ ~Pinned(cfg) THEN {"name"} ELSE {})
 
-\* ... and of an HTTPS proxy's certificate (same cert_reqs governs the proxy leg; no proxy pin or
-\* proxy_assert_hostname in this lattice).
+\* ... and of an HTTPS proxy's certificate (the same cert_reqs governs the proxy leg; a proxy pin
+\* replaces the proxy name check exactly as an origin pin replaces the origin name check).
+ProxyPinned(cfg) == cfg.route = "tunnel_https_pinned"
 ProxyDemanded(cfg) ==
     IF cfg.route \notin HttpsProxyRoutes THEN {}
-    ELSE (IF EffMode(cfg) = "REQUIRED" THEN {"pchain"} ELSE {})
-         \cup (IF EffMode(cfg) # "NONE" THEN {"pname"} ELSE {})
+    ELSE (IF ProxyPinned(cfg) THEN {"ppin"} ELSE {})
+         \cup (IF EffMode(cfg) = "REQUIRED" THEN {"pchain"} ELSE {})
+         \cup (IF EffMode(cfg) # "NONE" /\ ~ProxyPinned(cfg) THEN {"pname"} ELSE {})
 
 \* "made without certificate validation (cert_reqs other than REQUIRED and no pinned fingerprint)"
+\* -- of the ORIGIN: a pin on the proxy's certificate validates the proxy, not the peer the request
+\* is for.
 Validated(cfg) == EffMode(cfg) = "REQUIRED" \/ Pinned(cfg)
 
 \* A caller context that itself checks hostnames combined with cert_reqs=NONE is a configuration
 \* conflict: Python's ssl refuses it (ValueError) before a single TLS byte is written.
-Conflict(cfg) == cfg.backend = "ssl" /\ cfg.ctx = "default_like" /\ cfg.reqs = "NONE"
+Conflict(cfg) == cfg.backend = "ssl" /\ cfg.ctx \in {"default_like", "urllib3_ctx"} /\ cfg.reqs = "NONE"
 
 -----------------------------------------------------------------------------
 (* RULES, part 2: ground truth about the server (from how the certificate was minted)          *)
@@ -108,11 +123,12 @@ RawTermTruth(term, srv) ==
       [] OTHER             -> HostTruth(srv.san, srv.host)
 
 \* LATITUDE: a SAN-less certificate matches only through the commonName fallback.  urllib3's own
-\* context switches the fallback off (=> the name check fails); a caller-supplied context keeps
-\* its own hostname_checks_common_name, so the statement does not decide that case (either).
+\* context (built internally or handed back by the caller) switches the fallback off (=> the name
+\* check fails); any other caller-supplied context keeps its own hostname_checks_common_name, so
+\* the statement does not decide that case (either).
 NameTruth(cfg, srv) ==
     LET raw == RawTermTruth(NameTerm(cfg), srv) IN
-    IF raw = "cn" THEN (IF cfg.ctx = "none" THEN "fail" ELSE "either") ELSE raw
+    IF raw = "cn" THEN (IF cfg.ctx \in {"none", "urllib3_ctx"} THEN "fail" ELSE "either") ELSE raw
 
 Truth(c, cfg, srv) ==
     CASE c = "chain"  -> IF srv.issuer = "trusted" THEN "pass" ELSE "fail"
@@ -120,9 +136,10 @@ Truth(c, cfg, srv) ==
       [] c = "pin"    -> IF cfg.fp = "right" THEN "pass" ELSE "fail"      \* wrong digest / impossible length
       [] c = "pchain" -> IF cfg.route = "tunnel_https_bad" THEN "fail" ELSE "pass"
       [] c = "pname"  -> "pass"                                            \* proxy.test for proxy.test
+      [] c = "ppin"   -> "pass"                                            \* the right proxy pin
       [] OTHER        -> "pass"
 
-Checks == {"chain", "name", "pin", "pchain", "pname"}
+Checks == {"chain", "name", "pin", "pchain", "pname", "ppin"}
 Passed(srv, cfg) == {c \in Checks : Truth(c, cfg, srv) = "pass"}
 Failed(srv, cfg) == {c \in Checks : Truth(c, cfg, srv) = "fail"}
 
@@ -186,8 +203,8 @@ SniOf(term, srv) ==
                                  [] OTHER -> "a.svc.test")
       [] OTHER             -> IF DnsHost(srv.host) THEN "a.svc.test" ELSE "<none>"
 
-InitState(cfg, srv) ==
-    [cfg |-> cfg, srv |-> srv, pc |-> "new",
+InitStateKD(cfg, srv, kd) ==
+    [cfg |-> cfg, srv |-> srv, pc |-> "new", kd |-> kd,
      certReqs |-> "unset",     \* HTTPSConnection.cert_reqs
      own |-> FALSE,            \* default_ssl_context: urllib3 built the context itself
      vmode |-> "unset",        \* context.verify_mode
@@ -198,6 +215,7 @@ InitState(cfg, srv) ==
      sockOpen |-> FALSE, hs |-> FALSE, sni |-> "<none>",
      connectSent |-> FALSE, reqBytes |-> FALSE, warned |-> FALSE,
      exc |-> "none", by |-> "none"]     \* by: which component rejected (free per LATITUDE; drift only)
+InitState(cfg, srv) == InitStateKD(cfg, srv, KnownDefects)
 
 Raise(s, by) == [s EXCEPT !.pc = "raised", !.exc = "ssl", !.sockOpen = FALSE, !.by = by]
 
@@ -222,7 +240,8 @@ En_ProxyHandshake(s) == s.pc = "proxy_tls"
 ProxyHandshakeStep(s) ==
     IF s.certReqs # "NONE" /\ s.cfg.route = "tunnel_https_bad"
     THEN Raise(s, "openssl-proxy-chain")
-    ELSE [s EXCEPT !.pVerified = IF s.certReqs = "REQUIRED" THEN "true" ELSE "false", !.pc = "at_proxy"]
+    ELSE [s EXCEPT !.pVerified = IF s.certReqs = "REQUIRED" \/ ProxyPinned(s.cfg) THEN "true" ELSE "false",
+                   !.pc = "at_proxy"]
 
 \* --- _tunnel(): CONNECT goes to the proxy; an http proxy is by definition unverified
 En_Tunnel(s) == s.pc = "at_proxy"
@@ -238,13 +257,15 @@ BuildContextStep(s) ==
     LET own  == s.cfg.ctx = "none"
         \* create_urllib3_context: CERT_REQUIRED and not pyOpenSSL => check_hostname = True
         chk0 == IF own THEN (s.certReqs = "REQUIRED" /\ s.cfg.backend = "ssl")
-                       ELSE s.cfg.ctx = "default_like"
+                ELSE IF s.cfg.ctx = "urllib3_ctx" THEN s.cfg.backend = "ssl"   \* made by the same factory
+                ELSE s.cfg.ctx = "default_like"
         \* ssl.SSLContext refuses verify_mode = CERT_NONE while check_hostname is on
         refuse == ~own /\ s.cfg.backend = "ssl" /\ chk0 /\ s.certReqs = "NONE"
     IN IF refuse
        THEN [s EXCEPT !.pc = "refused", !.exc = "config", !.sockOpen = FALSE]
        ELSE [s EXCEPT !.own = own, !.vmode = s.certReqs, !.checkHost = chk0,
-                      !.cnFallback = ~own /\ s.cfg.backend = "ssl",   \* create_default_context keeps it on
+                      \* ssl.create_default_context keeps the fallback on, urllib3's factory turns it off
+                      !.cnFallback = ~own /\ s.cfg.backend = "ssl" /\ s.cfg.ctx # "urllib3_ctx",
                       !.pc = "ctx_built"]
 
 \* --- "In some cases, we want to verify hostnames ourselves"
@@ -294,8 +315,11 @@ ComputeIsVerifiedStep(s) ==
                  !.pc = "connected_tls"]
 
 \* --- _validate_conn: `if not conn.is_verified and not conn.proxy_is_verified: warn`
+\*     (design asked for, KnownDefects = {}: warn whenever the ORIGIN connection is not verified)
 En_Warn(s) == s.pc = "connected_tls"
-WarnStep(s) == [s EXCEPT !.warned = ~s.isVerified /\ s.pVerified # "true", !.pc = "validated"]
+WarnStep(s) ==
+    [s EXCEPT !.warned = ~s.isVerified /\ (IF "PinnedProxySilencesWarning" \in s.kd THEN s.pVerified # "true" ELSE TRUE),
+              !.pc = "validated"]
 
 \* --- conn.request(): first bytes of the HTTP request
 En_SendRequest(s) == s.pc = "validated"
@@ -331,6 +355,7 @@ NextState(s) ==
 RECURSIVE Run(_)
 Run(s) == IF Terminal(s) \/ s.pc = "done" THEN s ELSE Run(NextState(s))
 
+FinalKD(cfg, srv, kd) == Run(InitStateKD(cfg, srv, kd))
 Final(cfg, srv)   == Run(InitState(cfg, srv))
 Outcome(cfg, srv) == OutcomeClass(Final(cfg, srv))
 
@@ -381,7 +406,7 @@ Spec == Init /\ [][Next]_vars /\ WF_vars(Next)
 
 PCs == {"new", "derived", "proxy_tls", "at_proxy", "connected", "ctx_built", "decided", "handshaken", "checked",
         "connected_tls", "validated", "sent", "raised", "refused", "done"}
-TypeOK == /\ st.cfg \in Cfg /\ st.srv \in Srv /\ st.pc \in PCs
+TypeOK == /\ st.cfg \in Cfg /\ st.srv \in Srv /\ st.pc \in PCs /\ st.kd = KnownDefects
           /\ st.certReqs \in ReqsL \cup {"unset"} /\ st.vmode \in ReqsL \cup {"unset"}
           /\ st.pVerified \in {"none", "true", "false"} /\ st.exc \in {"none", "ssl", "config"}
           /\ \A f \in {"own", "checkHost", "cnFallback", "isVerified", "sockOpen", "hs", "connectSent",
@@ -403,16 +428,15 @@ Weakenings(cfg, srv) ==
     (IF EffMode(cfg) = "REQUIRED" THEN {<<WithReqs(cfg, "OPTIONAL"), srv>>} ELSE {})
     \cup (IF EffMode(cfg) = "OPTIONAL" THEN {<<WithReqs(cfg, "NONE"), srv>>} ELSE {})
     \cup (IF cfg.ah # "False" THEN {<<[cfg EXCEPT !.ah = "False"], srv>>} ELSE {})
-    \cup (IF cfg.ctx \in {"default_like", "nocheck"} /\ cfg.reqs = "default"
+    \cup (IF cfg.ctx \in {"default_like", "nocheck", "urllib3_ctx"} /\ cfg.reqs = "default"
           THEN {<<[cfg EXCEPT !.ctx = "mode_none"], srv>>} ELSE {})
     \cup (IF srv.issuer = "untrusted" THEN {<<cfg, [srv EXCEPT !.issuer = "trusted"]>>} ELSE {})
     \cup (IF cfg.route = "tunnel_https_bad" /\ "tunnel_https_good" \in Routes
           THEN {<<[cfg EXCEPT !.route = "tunnel_https_good"], srv>>} ELSE {})
-Accepting(class) == class \in {"SentVerified", "SentUnverifiedWarned"}
 Monotone ==
     st.pc = "sent" =>
         \A w \in Weakenings(st.cfg, st.srv) :
-            LET o == Outcome(w[1], w[2]) IN Accepting(o) \/ o = "ConfigRefused"
+            LET f == Final(w[1], w[2]) IN f.pc = "sent" \/ f.pc = "refused"
 
 \* the Model stays inside the three-valued envelope and is exact where the envelope is two-valued
 WithinExpectation ==
@@ -424,6 +448,15 @@ WithinExpectation ==
         /\ st.pc = "refused" => e = "refused"
 
 NoAnomalousOutcome == Terminal(st) => OutcomeClass(st) \in OutcomeClasses
+
+\* With KnownDefects # {} the Model describes the code AS IT IS: the two clauses above may fail, but only
+\* on the recorded signature (anything else is a new violation), and the defect must really show.
+KnownSignature(cfg) == "PinnedProxySilencesWarning" \in KnownDefects /\ ProxyPinned(cfg) /\ ~Validated(cfg)
+UnverifiedWarned_ModuloKnown ==
+    KnownSignature(st.cfg) \/ R_UnverifiedWarnedAndNotReportedVerified(st.cfg, st.srv, ObsOf(st))
+NoAnomalous_ModuloKnown == Terminal(st) => (KnownSignature(st.cfg) \/ OutcomeClass(st) \in OutcomeClasses)
+KnownDefectAlwaysShows ==
+    (st.pc = "sent" /\ KnownSignature(st.cfg)) => ~R_UnverifiedWarnedAndNotReportedVerified(st.cfg, st.srv, ObsOf(st))
 PureRunAgrees == Terminal(st) => Final(st.cfg, st.srv) = st
 
 \* ordering of the real steps (action properties)
